@@ -362,6 +362,27 @@ def Sim.add (s : Sim) (xs : List Item) (many : Bool) : Sim :=
       | none => s2
     else s2
 
+/-- apply labels in order, skipping those that are not enabled -/
+def applyLabels (c : Cfg) (w : W) : List Lbl → W
+  | [] => w
+  | l :: ls => match step c w l with
+    | some w' => applyLabels c w' ls
+    | none => applyLabels c w ls
+
+/-- The schedule of the harness op `gclose x1 … xn` (direct mode, queue empty, at rest): `x1` is
+enqueued and the flusher takes it and is inside the transport write (holding `w.mu`) while `x2 … xn`
+are enqueued and `close(true)` is called; the closer has to wait for `w.mu`, so the write of `x1`
+completes first and then `close` flushes the rest. -/
+def Sim.gclose (s : Sim) (xs : List Item) : Sim :=
+  match xs with
+  | [] => s
+  | x1 :: rest =>
+    let take : List Lbl := [.add [x1] false, .check 0, .g true, .g true, .h true, .h true]
+    let more : List Lbl := rest.flatMap fun x => [.add [x] false, .check 0]
+    let fin : List Lbl := [.h true, .close true, .h true, .h true, .h true]
+    let s1 := { s with w := applyLabels s.cfg s.w (take ++ more ++ fin) }
+    quiesce (simFuel s1) s1
+
 def minOpt (a : Option Nat) (b : Option Nat) : Option Nat :=
   match a, b with
   | some x, some y => some (min x y)
